@@ -230,6 +230,7 @@ type vBus struct {
 	inName  string
 	inCount int
 	mem     [65536]uint8
+	mem0    [65536]uint8
 	trace   []vEv
 	hook    func(kind int, addr uint16, val uint8)
 }
@@ -248,6 +249,7 @@ func vNewBus(name string) *vBus {
 			b.mem[i&0xffff] = uint8(v)
 		}
 	}
+	b.mem0 = b.mem
 	return b
 }
 
@@ -282,11 +284,13 @@ func (b *vBus) In(addr uint8) uint8 {
 func (b *vBus) Out(addr uint8, v uint8) { b.ev(3, uint16(addr), v) }
 
 func (b *vBus) Peek(addr uint16) uint8    { return b.mem[addr] }
+func (b *vBus) Peek0(addr uint16) uint8   { return b.mem0[addr] }
 func (b *vBus) Poke(addr uint16, v uint8) { b.mem[addr] = v }
 
 func (b *vBus) Fork(name string) *vBus {
 	n := &vBus{name: name, inName: b.inName}
 	n.mem = b.mem
+	n.mem0 = b.mem
 	return n
 }
 
